@@ -101,3 +101,27 @@ Proof.
   - rewrite E. reflexivity.
   - cbn in E. intro Hn. cbn in Hn. exfalso. exact (oof_b_false _ Hn E).
 Qed.
+
+(* the same with the semantic hypothesis spelled out (used by passes with their own relation) *)
+Theorem execute_rewrite_sem : forall S U fo ff d fuel opn v,
+    (forall o, pick_op d opn = Some o ->
+               forall T ov p,
+                 le_res (exec_sels S U (doc_frags d) (effective_vars o (match v with JObj m => m | _ => [] end)) Mono fuel T ov (op_sels o) p)
+                        (exec_sels S U (map (rw_frag ff) (doc_frags d)) (effective_vars o (match v with JObj m => m | _ => [] end)) Mono fuel T ov (fo o) p)) ->
+    resp_le (execute fuel S U Mono d opn v) (execute fuel S U Mono (doc_rewrite fo ff d) opn v).
+Proof.
+  intros S U fo ff d fuel opn v Hok. unfold resp_le, execute.
+  rewrite pick_op_rewrite.
+  destruct (pick_op d opn) as [o|] eqn:Ep; cbn [option_map]; [|reflexivity].
+  change (op_kind (rw_op fo o)) with (op_kind o).
+  destruct (root_type S (op_kind o)) as [rt|]; [|reflexivity].
+  change (effective_vars (rw_op fo o)) with (effective_vars o).
+  destruct (find_entity U rt []) as [root|]; [|reflexivity].
+  rewrite doc_frags_rewrite. change (op_sels (rw_op fo o)) with (fo o).
+  pose proof (Hok o eq_refl rt {| ov_ent := root; ov_repr := None |} []) as HL.
+  destruct (exec_sels S U (doc_frags d) (effective_vars o (match v with JObj m => m | _ => [] end)) Mono fuel rt
+                      {| ov_ent := root; ov_repr := None |} (op_sels o) []) as [r errs].
+  destruct HL as [E|E].
+  - rewrite E. reflexivity.
+  - cbn in E. intro Hn. cbn in Hn. exfalso. exact (oof_b_false _ Hn E).
+Qed.
